@@ -28,7 +28,7 @@ LEVEL_TEXT = ("seeded search over thread schedules of the real code: random sche
 LEVEL_NOTE = ("pre-emption granularity is the source line of ellipticcurve.py / numbertheory.py / _rwlock.py (bytecode "
               "instruction inside the publishing functions in instr mode); SimLock replaces threading.Lock only; "
               "interleavings inside C builtins or a single bytecode are out of reach")
-RUNS = {"quick": 24000, "thorough": 800000}
+RUNS = {"quick": 24000, "thorough": 600000}
 OPTIMIZED_PASS = {"quick": 1200, "thorough": 16000}   # extra runs under PYTHONOPTIMIZE=1 (assert statements removed)
 RULE = ("lock part: seeded programs for up to 2 readers + 2 writers (1-3 rounds, 0-3 yields and optional stall inside the "
         "critical section) x seeded schedule (pre-emption steps + choice list); curve part: 2-3 thread programs over "
